@@ -2134,7 +2134,7 @@ register("C09", "proof", check_c09)
 register("C13", "proof", check_c13)
 register("C05", "other", check_c05)
 register("C12", "other", check_c12)
-register("C14", "fault_enumeration", check_c14)
+register("C14", "other", check_c14)
 
 
 def run(pid, tier, seed):
